@@ -1,7 +1,7 @@
 (* C01 - property theorems.  Statements, `exact <lemma>`, Print Assumptions. *)
 From Coq Require Import String ZArith List Bool Permutation.
 From HD Require Import Base.Val C01_Model C01_Proofs C01_Proofs_Frames C01_Proofs_Lut C01_Proofs_Value C01_Proofs_Full
-  C01_Proofs_Hist C01_Proofs_Ext C01_Proofs_Sched C01_Proofs_Accept.
+  C01_Proofs_Hist C01_Proofs_Ext C01_Proofs_Sched C01_Proofs_Accept C01_Proofs_Tiled.
 Import ListNotations.
 Open Scope Z_scope.
 
@@ -529,3 +529,92 @@ Example C01_nonvacuous_acceptance :
   (exists st, construct c4 (Stack [[[4;0];[0;0]]; [[0;4];[0;4]]]) [0;1] = Ok st).
 Proof. exact nonvacuous_acceptance. Qed.
 Print Assumptions C01_nonvacuous_acceptance.
+
+(* ------------------------------------------------------------------ *)
+(* tiled sources: the mask handed over as ONE total pixel matrix        *)
+(* (tile_pixel_array=True)                                              *)
+(* ------------------------------------------------------------------ *)
+(* spatial.py get_tile_array is refused exactly when the 1-based offset lies
+   outside the matrix ... *)
+Theorem C01_tile_array_refused_iff : forall (z : Z) R C m ro co th tw,
+  (exists e, get_tile_array z R C m ro co th tw = Err e) <-> (ro < 1 \/ R < ro \/ co < 1 \/ C < co).
+Proof. exact (@get_tile_array_err_iff Z). Qed.
+Print Assumptions C01_tile_array_refused_iff.
+
+(* ... and otherwise returns a FULL tile of th*tw pixels whose in-tile pixel
+   (i, j) is the matrix pixel (row_offset-1+i, column_offset-1+j) when that lies
+   inside the R x C matrix and the zero pixel otherwise: the data stay at the
+   top / left of a partly covered edge tile, the zero padding goes below / right,
+   for every tile size and every matrix size (a whole number of tiles or not).
+   [A] = Z for 3-D label arrays, list Z (the channels of a pixel) for 4-D stacks *)
+Theorem C01_tile_array_spec : forall (A : Type) (z d : A) R C m ro co th tw,
+  zlen m = R * C -> 1 <= ro <= R -> 1 <= co <= C -> 1 <= th -> 1 <= tw ->
+  exists tile, get_tile_array z R C m ro co th tw = Ok tile /\ zlen tile = th * tw /\
+    forall i j, 0 <= i < th -> 0 <= j < tw ->
+      nthz (i * tw + j) tile d =
+      if (ro - 1 + i <? R) && (co - 1 + j <? C) then nthz ((ro - 1 + i) * C + (co - 1 + j)) m d else z.
+Proof. exact @get_tile_array_spec. Qed.
+Print Assumptions C01_tile_array_spec.
+
+(* the frames the constructor cuts out of the matrix: one per tile of the grid
+   (compute_tile_positions_per_frame), in row-major order of the tiles, none
+   refused; tile t holds under its in-tile pixel p the matrix pixel
+   ((t / ntc) * th + p / tw, (t mod ntc) * tw + p mod tw), zero beyond the edge *)
+Theorem C01_tiles_of_matrix : forall (A : Type) (z d : A) R C th tw m,
+  zlen m = R * C -> 1 <= R -> 1 <= C -> 1 <= th -> 1 <= tw ->
+  exists tiles, tile_planes z R C th tw m = Ok tiles /\ zlen tiles = n_tiles R C th tw /\
+    forall t, 0 <= t < n_tiles R C th tw ->
+      zlen (nthz t tiles []) = th * tw /\
+      forall p, 0 <= p < th * tw ->
+        let r := (t / n_tiles_along C tw) * th + p / tw in
+        let q := (t mod n_tiles_along C tw) * tw + p mod tw in
+        nthz p (nthz t tiles []) d = if (r <? R) && (q <? C) then nthz (r * C + q) m d else z.
+Proof. exact @tile_planes_spec. Qed.
+Print Assumptions C01_tiles_of_matrix.
+
+(* THE PROPERTY for a mask handed over as one total pixel matrix, with no
+   hypothesis on its content: whatever well-formed matrix (shape (1, R, C[, S]),
+   any tile size, R and C a whole number of tiles or not, TILED_SPARSE or
+   TILED_FULL) the constructor accepts reads back - for every list of source
+   frame numbers passing the guards, from every object (lazy reader or not) and
+   cache state - as the part of THE MATRIX under each requested source frame
+   (expected_tile_pixel is defined from the matrix alone: the stored value of
+   matrix pixel (r, q), zero beyond the bottom / right edge, zero planes for
+   frames that are not there) *)
+Theorem C01_tiled_no_silent_corruption : forall c R C full i st,
+  well_formed_tiled c R C i = true -> construct_tiled c R C full i = Ok st ->
+  forall lazy warm req am,
+    read_guard st req true am = Ok tt ->
+    read_g (frame_getter lazy warm st) st req true am = Ok (expected_tiled_req c R C i req).
+Proof. exact tiled_no_silent_corruption. Qed.
+Print Assumptions C01_tiled_no_silent_corruption.
+
+(* the instance "all source frames in the order of the source", eagerly and lazily *)
+Theorem C01_tiled_roundtrip_by_frame : forall c R C full i st,
+  well_formed_tiled c R C i = true -> construct_tiled c R C full i = Ok st ->
+  forall lazy, read_by_frame lazy st (one_to (n_tiles R C (rows c) (cols c))) true
+               = Ok (expected_tiled_req c R C i (one_to (n_tiles R C (rows c) (cols c)))).
+Proof. exact tiled_roundtrip_by_frame. Qed.
+Print Assumptions C01_tiled_roundtrip_by_frame.
+
+(* non-vacuity: a 3 x 5 label map in tiles of 2 x 3 - the last tile row and the
+   last tile column are only partly covered; the tiles show the zeros below /
+   right of the data; the matrix is well-formed and valid, is accepted, every
+   tile is stored and read back by source frame (here frames 4 and 1, lazily) *)
+Example C01_nonvacuous_tiled :
+  let c := Cfg LABELMAP DInt 1 1 false [1; 2] 2 3 3 5 4 true in
+  let m := [1;1;0;2;2;  0;1;0;0;2;  2;0;0;1;1] in
+  tile_planes 0 3 5 2 3 m = Ok [[1;1;0; 0;1;0]; [2;2;0; 0;2;0]; [2;0;0; 0;0;0]; [1;1;0; 0;0;0]] /\
+  get_tile_array 0 3 5 m 3 4 2 3 = Ok [1;1;0; 0;0;0] /\
+  get_tile_array 0 3 5 m 4 1 2 3 = Err "ValueError"%string /\
+  well_formed_tiled c 3 5 (Label [m]) = true /\ valid_tiled c 3 5 (Label [m]) = true /\
+  tiled_spec_holds c 3 5 false (Label [m]) = true /\
+  match construct_tiled c 3 5 false (Label [m]) with
+  | Ok st => s_meta st = [(0, 0); (0, 1); (0, 2); (0, 3)] /\
+             read_by_frame true st [4; 1] false
+               = Ok [[[1;0];[1;0];[0;0]; [0;0];[0;0];[0;0]]; [[1;0];[1;0];[0;0]; [0;0];[1;0];[0;0]]]
+  | Err _ => False
+  end /\
+  construct_tiled c 3 5 true (Label [m]) <> construct_tiled c 3 4 true (Label [m]).
+Proof. exact nonvacuous_tiled. Qed.
+Print Assumptions C01_nonvacuous_tiled.
